@@ -1127,7 +1127,7 @@ func (in *Interp) indexAddr(fr *frame, instr *ssa.IndexAddr, x Value, idx *Term)
 	}
 	n := len(elems)
 	if idx.IsConst() {
-		i := sext64(idx.k, idx.sort.W)
+		i := constIndex(idx, instr.Index.Type())
 		if i < 0 || i >= int64(n) {
 			if in.mergeGuard != nil {
 				panic(mergeAbort{"trap", false})
@@ -1136,7 +1136,7 @@ func (in *Interp) indexAddr(fr *frame, instr *ssa.IndexAddr, x Value, idx *Term)
 		}
 		return &elems[i]
 	}
-	in.trapCheck(in.ts.ULt(idx, in.ts.BVConst(uint64(n), int(idx.sort.W))), "runtime error: index out of range (symbolic index)", instr.Pos())
+	in.trapCheck(in.inRange(idx, instr.Index.Type(), n), "runtime error: index out of range (symbolic index)", instr.Pos())
 	// Address with a symbolic index: if every use is a load we can avoid the
 	// fork by returning a lazy pointer; otherwise case-split.
 	if onlyLoaded(instr) {
@@ -1147,6 +1147,35 @@ func (in *Interp) indexAddr(fr *frame, instr *ssa.IndexAddr, x Value, idx *Term)
 	}
 	i := in.pickIndex(idx, n)
 	return &elems[i]
+}
+
+func constIndex(idx *Term, t types.Type) int64 {
+	_, signed, _ := basicInfo(t)
+	if signed || idx.sort.W >= 64 {
+		return sext64(idx.k, idx.sort.W)
+	}
+	return int64(idx.k)
+}
+
+// inRange builds the condition 0 <= idx < n for an index of static type t.
+func (in *Interp) inRange(idx *Term, t types.Type, n int) *Term {
+	ts := in.ts
+	w := int(idx.sort.W)
+	_, signed, _ := basicInfo(t)
+	if w >= 64 {
+		return ts.ULt(idx, ts.BVConst(uint64(n), w))
+	}
+	if signed {
+		nonneg := ts.SLe(ts.BVConst(0, w), idx)
+		if uint64(n) >= uint64(1)<<(w-1) {
+			return nonneg
+		}
+		return ts.And(nonneg, ts.SLt(idx, ts.BVConst(uint64(n), w)))
+	}
+	if uint64(n) >= uint64(1)<<w {
+		return ts.tTrue
+	}
+	return ts.ULt(idx, ts.BVConst(uint64(n), w))
 }
 
 // symAddr is the address of elems[idx] for a symbolic idx, used only by loads.
@@ -1231,7 +1260,7 @@ func (in *Interp) indexOp(fr *frame, instr *ssa.Index, x Value, idx *Term) Value
 	case Array:
 		n := len(x)
 		if idx.IsConst() {
-			i := sext64(idx.k, idx.sort.W)
+			i := constIndex(idx, instr.Index.Type())
 			if i < 0 || i >= int64(n) {
 				if in.mergeGuard != nil {
 					panic(mergeAbort{"trap", false})
@@ -1240,18 +1269,18 @@ func (in *Interp) indexOp(fr *frame, instr *ssa.Index, x Value, idx *Term) Value
 			}
 			return copyVal(x[i])
 		}
-		in.trapCheck(in.ts.ULt(idx, in.ts.BVConst(uint64(n), int(idx.sort.W))), "runtime error: index out of range (symbolic index)", instr.Pos())
+		in.trapCheck(in.inRange(idx, instr.Index.Type(), n), "runtime error: index out of range (symbolic index)", instr.Pos())
 		return in.selectElem(x, idx)
 	case Str:
-		return in.strIndex(x, idx, instr.Pos())
+		return in.strIndex(x, idx, instr.Index.Type(), instr.Pos())
 	}
 	panic(fmt.Sprintf("Index on %T", x))
 }
 
-func (in *Interp) strIndex(x Str, idx *Term, pos token.Pos) Value {
+func (in *Interp) strIndex(x Str, idx *Term, it types.Type, pos token.Pos) Value {
 	n := x.Len()
 	if idx.IsConst() {
-		i := sext64(idx.k, idx.sort.W)
+		i := constIndex(idx, it)
 		if i < 0 || i >= int64(n) {
 			if in.mergeGuard != nil {
 				panic(mergeAbort{"trap", false})
@@ -1260,7 +1289,7 @@ func (in *Interp) strIndex(x Str, idx *Term, pos token.Pos) Value {
 		}
 		return in.strByte(x, int(i))
 	}
-	in.trapCheck(in.ts.ULt(idx, in.ts.BVConst(uint64(n), int(idx.sort.W))), "runtime error: index out of range (symbolic string index)", pos)
+	in.trapCheck(in.inRange(idx, it, n), "runtime error: index out of range (symbolic string index)", pos)
 	elems := make([]Value, n)
 	for i := range elems {
 		elems[i] = in.strByte(x, i)
@@ -1271,7 +1300,7 @@ func (in *Interp) strIndex(x Str, idx *Term, pos token.Pos) Value {
 func (in *Interp) lookup(fr *frame, instr *ssa.Lookup, x Value, idx Value) Value {
 	switch x := x.(type) {
 	case Str:
-		return in.strIndex(x, idx.(*Term), instr.Pos())
+		return in.strIndex(x, idx.(*Term), instr.Index.Type(), instr.Pos())
 	case *Map:
 		in.raceReadObj(x)
 		mt := instr.X.Type().Underlying().(*types.Map)
